@@ -834,6 +834,9 @@ func (fc *fctx) oldState(st *State) *State {
 
 func (fc *fctx) oldEnv(st *State) *SpecEnv {
 	vars := map[string]*Value{}
+	for k, v := range fc.capturedEntry {
+		vars[k] = v
+	}
 	for k, v := range fc.paramVals {
 		vars[k] = v
 	}
@@ -869,6 +872,7 @@ func (fc *fctx) invEnv(st *State, fr *frame) *SpecEnv {
 // checkPost emits the ensures and frame obligations at a return of the root function.
 func (fc *fctx) checkPost(st *State, fr *frame) {
 	env := fc.postEnv(st, fr)
+	env.fr = fr // locals still in scope at the return may be named (after parameters and results)
 	k := 0
 	for _, cl := range fc.contract.Clauses {
 		if cl.Kind != "ensures" {
